@@ -364,24 +364,66 @@ def sql_facts(tree, src):
                     raise Untranslatable("session.sql: a `continue` on the table name of an unrecognised shape")
                 skip_own = True
                 own_set = setname
-            elif not (isinstance(t, ast.UnaryOp) and isinstance(t.op, ast.Not)):
+            elif not (isinstance(t, ast.UnaryOp) and isinstance(t.op, ast.Not) and isinstance(t.operand, ast.NamedExpr)
+                      and isinstance(t.operand.value, ast.Call) and dotted(t.operand.value.func) == "self.temp_views.get"):
                 raise Untranslatable("session.sql: an unrecognised `continue` in the splice loop")
-    # ---- skip CTE names already present
-    skip_ok = False
-    for n in ast.walk(loop):
-        if isinstance(n, ast.If) and isinstance(n.test, ast.Compare) and len(n.test.ops) == 1 \
-                and isinstance(n.test.ops[0], ast.NotIn) and dotted(n.test.left) and dotted(n.test.left).endswith(".alias_or_name"):
-            if any(isinstance(x, ast.Call) and isinstance(x.func, ast.Attribute) and x.func.attr == "append" for x in ast.walk(n)) \
-                    and not n.orelse:
-                skip_ok = True
-    if not skip_ok:
-        raise Untranslatable("session.sql: `if cte.alias_or_name not in <present>: append` not found")
+    # ---- skip CTE names already present: per table reference, the names of <q>.ctes at that moment (a dict keyed by the
+    # name or a set of the names), and the view's CTEs whose name is not among them are collected -- by a loop with
+    # append or by a list comprehension -- [as copies]
+    def present_names(var):
+        defs = [x for x in loop.body if isinstance(x, ast.Assign) and dotted(x.targets[0]) == var]
+        if len(defs) != 1:
+            return False
+        v = defs[0].value
+        if isinstance(v, ast.DictComp):
+            elt, gens = v.key, v.generators
+        elif isinstance(v, ast.SetComp):
+            elt, gens = v.elt, v.generators
+        else:
+            return False
+        return (len(gens) == 1 and not gens[0].ifs and isinstance(gens[0].target, ast.Name)
+                and dotted(elt) == gens[0].target.id + ".alias_or_name" and dotted(gens[0].iter) == (qd or "") + ".ctes")
+
+    def kept(elt, var):
+        return dotted(elt) == var or (isinstance(elt, ast.Call) and dotted(elt.func) == var + ".copy" and not elt.args
+                                      and not elt.keywords)
+
+    def not_in_present(test, var):
+        return (isinstance(test, ast.Compare) and len(test.ops) == 1 and isinstance(test.ops[0], ast.NotIn)
+                and dotted(test.left) == var + ".alias_or_name" and isinstance(test.comparators[0], ast.Name)
+                and present_names(test.comparators[0].id))
+    added_var = None
+    for st in loop.body:
+        # ctes_to_add = [cte[.copy()] for cte in <df>.expression.ctes if cte.alias_or_name not in <present>]
+        if isinstance(st, ast.Assign) and isinstance(st.targets[0], ast.Name) and isinstance(st.value, ast.ListComp):
+            lc = st.value
+            if len(lc.generators) == 1 and isinstance(lc.generators[0].target, ast.Name):
+                g0 = lc.generators[0]
+                d = dotted(g0.iter)
+                if d and d.endswith(".expression.ctes") and len(g0.ifs) == 1 and not_in_present(g0.ifs[0], g0.target.id) \
+                        and kept(lc.elt, g0.target.id):
+                    added_var = st.targets[0].id
+        # ctes_to_add = []; for cte in <df>.expression.ctes: if cte.alias_or_name not in <present>: ctes_to_add.append(cte[.copy()])
+        if isinstance(st, ast.For) and isinstance(st.target, ast.Name) and dotted(st.iter) and dotted(st.iter).endswith(".expression.ctes") \
+                and len(st.body) == 1 and isinstance(st.body[0], ast.If) and not st.body[0].orelse and not st.orelse:
+            iff = st.body[0]
+            if not_in_present(iff.test, st.target.id) and len(iff.body) == 1 and isinstance(iff.body[0], ast.Expr) \
+                    and isinstance(iff.body[0].value, ast.Call) and isinstance(iff.body[0].value.func, ast.Attribute) \
+                    and iff.body[0].value.func.attr == "append" and len(iff.body[0].value.args) == 1 \
+                    and kept(iff.body[0].value.args[0], st.target.id):
+                lst = dotted(iff.body[0].value.func.value)
+                inits = [x for x in loop.body if isinstance(x, ast.Assign) and dotted(x.targets[0]) == lst
+                         and isinstance(x.value, ast.List) and not x.value.elts]
+                if len(inits) == 1:
+                    added_var = lst
+    if added_var is None:
+        raise Untranslatable("session.sql: the view's CTEs whose name is not yet in <q>.ctes are not collected in a recognised way")
     app_ok = False
     for n in ast.walk(loop):
         if isinstance(n, ast.Call) and dotted(n.func) == "exp.With":
             e = _kw(n).get("expressions")
             if isinstance(e, ast.BinOp) and isinstance(e.op, ast.Add) and dotted(e.left) == (qd or "") + ".ctes" \
-                    and isinstance(e.right, ast.Name):
+                    and dotted(e.right) == added_var:
                 app_ok = True
     if not app_ok:
         raise Untranslatable("session.sql: added CTEs are not appended after the query's own (`<q>.ctes + ctes_to_add`)")
